@@ -23,6 +23,7 @@ func vfH_C12_logorder() {
 	aof := env.slock.aof
 	r := vfRange("perfile", 1, 3)
 	aof.rewriteSize = uint32(12 + 64*r)
+	aof.isRewriting = true // keeps the rotation's background compaction job from starting: natively it would race with this harness
 	n := vfRange("records", 2, 4)
 	for step := 0; step < n; step++ {
 		c := env.newCmd(protocol.COMMAND_LOCK, vfKey(uint8(1+step)), vfLockId(uint8(1+step)))
